@@ -39,35 +39,37 @@ type fq struct {
 	Q int      `json:"q"`
 }
 type op struct {
-	Op     string    `json:"op"`
-	C      int       `json:"c"`
-	N      int       `json:"n"`
-	Client string    `json:"client"`
-	User   string    `json:"user"`
-	Pass   string    `json:"pass"`
-	KA     int       `json:"ka"`
-	Clean  bool      `json:"clean"`
-	Will   *willSpec `json:"will"`
-	Auto   string    `json:"auto"`
-	ID     int       `json:"id"`
-	Fs     []fq      `json:"fs"`
-	T      []string  `json:"t"`
-	P      string    `json:"p"`
-	Q      int       `json:"q"`
-	R      bool      `json:"r"`
-	Dup    bool      `json:"dup"`
-	Kind   string    `json:"kind"`
-	Hex    string    `json:"hex"`
-	Cls    string    `json:"cls"`
-	Ms     int       `json:"ms"`
-	Mode   string    `json:"mode"`
-	Mid    int       `json:"mid"`
-	To     int       `json:"to"`
-	From   int       `json:"from"`
-	K      int       `json:"k"`
-	On     bool      `json:"on"`
-	NoWait bool      `json:"nowait"`
-	Size   int       `json:"size"`
+	Op      string    `json:"op"`
+	C       int       `json:"c"`
+	N       int       `json:"n"`
+	Client  string    `json:"client"`
+	User    string    `json:"user"`
+	Pass    string    `json:"pass"`
+	KA      int       `json:"ka"`
+	Clean   bool      `json:"clean"`
+	Will    *willSpec `json:"will"`
+	Auto    string    `json:"auto"`
+	ID      int       `json:"id"`
+	Fs      []fq      `json:"fs"`
+	T       []string  `json:"t"`
+	P       string    `json:"p"`
+	Q       int       `json:"q"`
+	R       bool      `json:"r"`
+	Dup     bool      `json:"dup"`
+	Kind    string    `json:"kind"`
+	Hex     string    `json:"hex"`
+	Cls     string    `json:"cls"`
+	Ms      int       `json:"ms"`
+	Mode    string    `json:"mode"`
+	Mid     int       `json:"mid"`
+	To      int       `json:"to"`
+	From    int       `json:"from"`
+	K       int       `json:"k"`
+	On      bool      `json:"on"`
+	NoWait  bool      `json:"nowait"`
+	Size    int       `json:"size"`
+	Order   []int     `json:"order"`   // peerfail: the order in which the survivors are told
+	Stagger bool      `json:"stagger"` // peerfail: deliver gossip between the notifications
 }
 type authEnt struct {
 	U string `json:"u"`
@@ -85,6 +87,8 @@ type scenario struct {
 	Nodes   []int     `json:"nodes"`
 	Auth    []authEnt `json:"auth"` // when present: a credentials file for the real auth.FileHandler
 	Ops     []op      `json:"ops"`
+	// AuditDown: the audit sink of every node is unreachable for the whole scenario
+	AuditDown bool `json:"auditdown"`
 }
 
 type runner struct {
@@ -273,6 +277,7 @@ func (x *runner) run(idx int, s scenario) {
 	x.gossip = "auto"
 	x.stall = false
 	x.lenient = s.Lenient
+	w.AuditDown = s.AuditDown
 	x.tdSeen = nil
 	defer w.Close()
 	if len(s.Nodes) == 0 {
@@ -527,10 +532,23 @@ func (x *runner) step(o op) {
 		dead := w.Nodes[o.N]
 		dead.Down = true
 		x.r.Emit(rec.Ev{"op": "peer.fail", "n": o.N})
-		for id, n := range w.Nodes {
-			if id != o.N && !n.Down {
+		// the membership layer tells the survivors one after the other, in the given order (default: ascending); with
+		// Stagger the gossip queued by one survivor's reaction is delivered before the next survivor is told
+		order := o.Order
+		if len(order) == 0 {
+			for id := range w.Nodes {
+				order = append(order, id)
+			}
+			sort.Ints(order)
+		}
+		for _, id := range order {
+			n := w.Nodes[id]
+			if n != nil && id != o.N && !n.Down {
 				n.Members.NotifyGossipLeave(uint64(o.N))
 				x.r.Emit(rec.Ev{"op": "peer.leave.notified", "n": id, "dead": o.N})
+				if o.Stagger {
+					x.settle()
+				}
 			}
 		}
 		x.settle()
